@@ -787,6 +787,8 @@ def write_case(f, c):
         f.write("max %d\n" % c["max"])
     if "seed" in c:
         f.write("seed %d\n" % c["seed"])
+    if "fuel" in c:
+        f.write("fuel %d\n" % c["fuel"])
     if "niter" in c:
         f.write("niter %d\n" % c["niter"])
     if c.get("cont"):
